@@ -38,6 +38,12 @@ type Request struct {
 	// transaction that is still unconfirmed at that moment.
 	Resync     []string `json:"resync,omitempty"`
 	ResyncKind string   `json:"resync_kind,omitempty"` // rescan | restart
+	// Realized records which unconfirmed transaction received which
+	// answer (the wallet's rebroadcast order of independent transactions
+	// is not fixed); a replay repeats until the same assignment occurs.
+	Realized map[string]string `json:"rebroadcast_answer_by_tx,omitempty"`
+
+	got map[string]string
 }
 
 func (r *Request) entryName() string {
@@ -66,7 +72,20 @@ func (r *Request) String() string {
 	}
 	s += ")"
 	if r.Resync != nil {
-		s = fmt.Sprintf("resync[%s, rebroadcast answers %v] then %s", r.ResyncKind, r.Resync, s)
+		ans := fmt.Sprint(r.Resync)
+		if r.Realized != nil {
+			var ks []string
+			for k := range r.Realized {
+				ks = append(ks, k)
+			}
+			sort.Strings(ks)
+			var ps []string
+			for _, k := range ks {
+				ps = append(ps, k+"="+r.Realized[k])
+			}
+			ans = "[" + strings.Join(ps, " ") + "]"
+		}
+		s = fmt.Sprintf("resync[%s, rebroadcast answers %s] then %s", r.ResyncKind, ans, s)
 	}
 	return s
 }
@@ -142,7 +161,10 @@ func (w *world) exec(r *Request, keep bool, st *stats) (fs []finding) {
 		defer func() { st.nsByEntry[key] += int64(time.Since(t0)) }()
 	}
 	if r.Resync != nil {
-		w.resync(r.ResyncKind, r.Resync)
+		r.got = w.resync(r.ResyncKind, r.Resync)
+		if r.Realized == nil {
+			r.Realized = r.got
+		}
 	}
 	var scopePtr *waddrmgr.KeyScope
 	if r.Scope >= 0 {
@@ -420,6 +442,7 @@ func (w *world) exec(r *Request, keep bool, st *stats) (fs []finding) {
 
 	if published {
 		w.published = append(w.published, tx)
+		w.roles[tx.TxHash()] = fmt.Sprintf("send%d", len(w.published))
 		for _, in := range tx.TxIn {
 			w.pubInputs[in.PreviousOutPoint] = true
 			if cn := w.prev[in.PreviousOutPoint]; cn != nil && cn.spent == "" {
